@@ -34,7 +34,7 @@ class Job:
                  backend="sat", timeout=None, kind="bounded", bound="", tier="quick", min_loops=0,
                  clause="", functions=(), cbmc_flags=(), fallback=None, static_only=False,
                  native_srcs=None, native_libs=("-lm",), expect_fail=None, object_bits=None, no_replay=False,
-                 native_defines=None, loops=(), unwind_is_property=(), timeout_is_nontermination=False):
+                 native_defines=None, loops=(), unwind_is_property=(), timeout_is_nontermination=False, advisory=False):
         self.name = name; self.harness = harness; self.entry = entry or ("h_" + name.split("@")[0])
         self.srcs = list(srcs); self.enforce = enforce; self.replace = list(replace)
         self.loop_contracts = loop_contracts; self.unwind = unwind; self.unwindset = list(unwindset)
@@ -48,6 +48,7 @@ class Job:
         self.native_defines = dict(native_defines or {})
         self.loops = list(loops)
         self.unwind_is_property = list(unwind_is_property); self.timeout_is_nontermination = timeout_is_nontermination
+        self.advisory = advisory   # an obligation known not to finish: attempted, reported, but 'undecided' does not fail the check
         if self.loops:
             self.loop_contracts = True
 
@@ -550,7 +551,7 @@ def check_property(prop, tier, only=None, verbose=False):
             if verbose or r["status"] != "ok":
                 log("  [%s] %-40s %-8s obl=%d ok=%d t=%.1fs %s" % (prop, j.name, r["status"], r["obligations"],
                     r["discharged"], r["wall_s"], r["detail"][:300]))
-    violations = []; known_hits = []; undecided = []
+    violations = []; known_hits = []; undecided = []; attempted = []
     replay_budget = [MAX_REPLAYS_PER_PROPERTY]
     for j in jobs:
         r = results[j.name]
@@ -591,7 +592,10 @@ def check_property(prop, tier, only=None, verbose=False):
                 if len([v for v in violations if v[0] is j]) >= 3:
                     break
         elif r["status"] != "ok":
-            undecided.append((j, r))
+            if j.advisory and r["status"] in ("timeout", "error"):
+                attempted.append((j, r))
+            else:
+                undecided.append((j, r))
     # report
     seen_known = set()
     for k, j, item in known_hits:
@@ -606,7 +610,9 @@ def check_property(prop, tier, only=None, verbose=False):
         log("VIOLATION property=%s replay=%s%s" % (prop, path, tail))
     for j, r in undecided:
         log("UNDECIDED property=%s job=%s status=%s %s" % (prop, j.name, r["status"], r["detail"][:400]))
-    write_evidence(prop, tier, mod, jobs, results, violations, known_hits, undecided, time.time() - t0)
+    for j, r in attempted:
+        log("ATTEMPTED-NOT-DECIDED property=%s job=%s status=%s (advisory obligation: listed in the evidence as not decided, does not count as discharged)" % (prop, j.name, r["status"]))
+    write_evidence(prop, tier, mod, jobs, results, violations, known_hits, undecided, time.time() - t0, attempted)
     if violations:
         return 1
     if undecided:
@@ -616,7 +622,7 @@ def check_property(prop, tier, only=None, verbose=False):
     return 0
 
 
-def write_evidence(prop, tier, mod, jobs, results, violations, known_hits, undecided, wall):
+def write_evidence(prop, tier, mod, jobs, results, violations, known_hits, undecided, wall, attempted=()):
     meta = getattr(mod, "META", {})
     obl = sum(r["obligations"] for r in results.values())
     dis = sum(r["discharged"] for r in results.values())
@@ -665,7 +671,8 @@ def write_evidence(prop, tier, mod, jobs, results, violations, known_hits, undec
                solver_seconds_total=round(sum(r["solver_s"] for r in results.values()), 1),
                per_job=per_job,
                known_findings_reported=sorted(set(k["id"] for k, _, _ in known_hits)),
-               undecided=[dict(job=j.name, status=r["status"], detail=r["detail"][:300]) for j, r in undecided])
+               undecided=[dict(job=j.name, status=r["status"], detail=r["detail"][:300]) for j, r in undecided],
+               attempted_not_decided=[dict(job=j.name, status=r["status"], clause=j.clause) for j, r in attempted])
     if getattr(mod, "extra_coverage", None):
         cov.update(mod.extra_coverage(results))
     ev = dict(property_id=prop, tier=tier, seed=int(os.environ.get("VERIF_SEED", "0") or 0), level=level, coverage=cov,
